@@ -1,108 +1,11 @@
-import CelmaVerif.Lemmas.RulesBase
+import CelmaVerif.Lemmas.RulesAssign
 /-
-  Rules layer, part 2: the rules that are local to one argument — mandatory, values, cardinality.
+  Rules layer, part 2b: the rules that are local to one argument — mandatory, values, cardinality.
   Invariants of the per-argument state (`ArgSt`) over `applyUses`, and their reading at the final
   `checkMandatoryCardinality`.
 -/
 namespace CelmaVerif.ProgArgs
 open CelmaVerif CelmaVerif.Keys
-
-/-! ### cardinality objects -/
-
-/-- the limit a cardinality object counts against (`none`: the object does not count at all) -/
-def Card.limit : Card → Option Int
-  | .unlimited => none
-  | .max n => if n = -1 then none else some n
-  | .exact n => some n
-  | .range _ hi => if hi = -1 then none else some hi
-
-theorem gotValue_eq (c : Card) (cnt : Int) :
-    c.gotValue cnt = match c.limit with
-      | none => .ok cnt
-      | some n => if cnt + 1 > n then .throw .runtime_error else .ok (cnt + 1) := by
-  cases c with
-  | unlimited => rfl
-  | max n => by_cases h : n = -1 <;> simp [Card.gotValue, Card.limit, h]
-  | exact n => rfl
-  | range lo hi => by_cases h : hi = -1 <;> simp [Card.gotValue, Card.limit, h]
-
-theorem gotValue_ok_some {c : Card} {n cnt cnt' : Int} (hl : c.limit = some n) (e : c.gotValue cnt = .ok cnt') :
-    cnt' = cnt + 1 ∧ cnt' ≤ n := by
-  rw [gotValue_eq, hl] at e
-  dsimp only at e
-  split at e
-  · cases e
-  · cases e; omega
-
-theorem gotValue_ok_none {c : Card} {cnt cnt' : Int} (hl : c.limit = none) (e : c.gotValue cnt = .ok cnt') :
-    cnt' = cnt := by
-  rw [gotValue_eq, hl] at e
-  cases e; rfl
-
-/-! ### the element loop of a list value -/
-
-theorem assignVecLoop_cnt_false (d : ArgDef) (n : Int) (hl : d.card.limit = some n) :
-    ∀ (ts : List Word) (st st' : ArgSt), assignVecLoop d ts false st = .ok st' → st.cnt ≤ n →
-      st'.cnt ≤ n ∧ st'.cnt = st.cnt + ts.length := by
-  intro ts
-  induction ts with
-  | nil => intro st st' e hle; simp only [assignVecLoop] at e; cases e; simp [hle]
-  | cons t ts ih =>
-    intro st st' e hle
-    simp only [assignVecLoop, bind_eq_ok, countValue] at e
-    obtain ⟨cnt, hc, _, _, v, _, e⟩ := e
-    simp only [Bool.false_eq_true, if_false] at hc
-    obtain ⟨h1, h2⟩ := gotValue_ok_some hl hc
-    obtain ⟨h3, h4⟩ := ih _ _ e h2
-    refine ⟨h3, ?_⟩
-    rw [h4]; simp only [List.length_cons]; omega
-
-theorem assignVecLoop_cnt_true (d : ArgDef) (n : Int) (hl : d.card.limit = some n)
-    (ts : List Word) (st st' : ArgSt) (e : assignVecLoop d ts true st = .ok st') (hle : st.cnt ≤ n) :
-    st'.cnt ≤ n ∧ st'.cnt + 1 = st.cnt + max 1 ts.length := by
-  cases ts with
-  | nil => simp only [assignVecLoop] at e; cases e; simp [hle]
-  | cons t ts =>
-    simp only [assignVecLoop, bind_eq_ok, countValue] at e
-    obtain ⟨cnt, hc, _, _, v, _, e⟩ := e
-    simp only [if_true] at hc
-    cases hc
-    obtain ⟨h3, h4⟩ := assignVecLoop_cnt_false d n hl _ _ _ e hle
-    refine ⟨h3, ?_⟩
-    rw [h4]; simp only [List.length_cons]; omega
-
-/-- `assign` of a non-list destination does not touch the counter -/
-theorem assignDest_cnt_scalar {d : ArgDef} {st st' : ArgSt} {v : Word} (hk : d.kind ≠ .vecInt)
-    (e : assignDest d st v = .ok st') : st'.cnt = st.cnt := by
-  unfold assignDest at e
-  split at e
-  · cases e; rfl
-  · simp only [bind_eq_ok] at e; obtain ⟨_, _, _, _, e⟩ := e; cases e; rfl
-  · simp only [bind_eq_ok] at e; obtain ⟨_, _, e⟩ := e; cases e; rfl
-  · dsimp only at e
-    split at e
-    · simp only [bind_eq_ok] at e; obtain ⟨_, _, _, _, e⟩ := e; cases e; rfl
-    · simp only [bind_eq_ok] at e; obtain ⟨_, _, _, _, _, _, e⟩ := e; cases e; rfl
-  · rename_i hv; exact absurd hv hk
-
-/-- the counter after `assign`: one value was counted by `assignValue` already, a list adds one per
-    element after the first -/
-theorem assignDest_cnt {d : ArgDef} {n : Int} (hl : d.card.limit = some n) {st st' : ArgSt} {u : Use}
-    (e : assignDest d st u.val = .ok st') (hle : st.cnt ≤ n) :
-    st'.cnt ≤ n ∧ st'.cnt + 1 = st.cnt + u.valueCount d := by
-  by_cases hk : d.kind = .vecInt
-  · unfold assignDest at e
-    rw [hk] at e
-    dsimp only at e
-    have := assignVecLoop_cnt_true d n hl _ _ _ e hle
-    unfold Use.valueCount
-    rw [hk]
-    exact this
-  · have := assignDest_cnt_scalar hk e
-    unfold Use.valueCount
-    constructor
-    · omega
-    · cases hkk : d.kind <;> first | exact absurd hkk hk | (simp only; omega)
 
 /-! ### values given -/
 
@@ -122,6 +25,10 @@ structure ArgInv (cfg : Cfg) (inits : List DVal) (h : HState) : Prop where
   /-- an argument not used yet is in its initial state -/
   fresh : ∀ (i : Nat) (d : ArgDef), cfg.args[i]? = some d → (∀ u ∈ h.uses, u.arg ≠ i) →
     ∃ v, inits[i]? = some v ∧ h.args[i]? = some { dest := v }
+  /-- a list argument that got no element yet still has its initial destination -/
+  freshVec : ∀ (i : Nat) (d : ArgDef), cfg.args[i]? = some d → d.kind = .vecInt →
+    (∀ u ∈ h.uses, u.arg = i → splitSep d.sep u.val = []) →
+    ∃ v st, inits[i]? = some v ∧ h.args[i]? = some st ∧ st.dest = v
   /-- a cardinality object that counts has counted the values given, and never beyond its limit -/
   count : ∀ (i : Nat) (d : ArgDef) (n : Int), cfg.args[i]? = some d → d.card.limit = some n →
     ∃ st, h.args[i]? = some st ∧ st.cnt = valuesGiven cfg i h.uses ∧ (st.cnt = 0 ∨ st.cnt ≤ n)
@@ -136,9 +43,12 @@ theorem initState_args (cfg : Cfg) (inits : List DVal) (i : Nat) (d : ArgDef) (h
 
 theorem argInv_init (cfg : Cfg) (inits : List DVal) (hin : cfg.args.length ≤ inits.length) :
     ArgInv cfg inits (cfg.initState inits) := by
-  constructor
+  refine ⟨?_, ?_, ?_⟩
   · intro i d hi _
     exact initState_args cfg inits i d hi hin
+  · intro i d hi _ _
+    obtain ⟨v, hv, hst⟩ := initState_args cfg inits i d hi hin
+    exact ⟨v, _, hv, hst, rfl⟩
   · intro i d n hi _
     obtain ⟨v, _, hv⟩ := initState_args cfg inits i d hi hin
     exact ⟨_, hv, by simp [valuesGiven, Cfg.initState], Or.inl rfl⟩
@@ -149,12 +59,26 @@ theorem getD_of_getElem? {l : List ArgSt} {i : Nat} {st : ArgSt} (h : l[i]? = so
 theorem argInv_step {cfg : Cfg} {inits : List DVal} {h : HState} {u : Use} {h' : HState}
     (f : Frame cfg h) (a : ArgInv cfg inits h) (e : applyUse cfg h u = .ok h') : ArgInv cfg inits h' := by
   obtain ⟨d, pend, cnt, st', s⟩ := applyUse_ok e
-  constructor
+  refine ⟨?_, ?_, ?_⟩
   · intro i di hi hno
     have hne : u.arg ≠ i := hno u (by rw [s.uses']; simp)
     obtain ⟨v, hv, hst⟩ := a.fresh i di hi (fun w hw => hno w (by rw [s.uses']; simp [hw]))
     refine ⟨v, hv, ?_⟩
     rw [s.args', List.getElem?_set_ne hne]; exact hst
+  · intro i di hi hk hno
+    obtain ⟨v, st, hv, hst, hd⟩ := a.freshVec i di hi hk (fun w hw => hno w (by rw [s.uses']; simp [hw]))
+    by_cases hui : u.arg = i
+    · have hdd : di = d := by have := s.arg; rw [hui, hi] at this; cases this; rfl
+      subst hdd
+      have hlt : i < h.args.length := by rw [f.argsLen]; exact (List.getElem?_eq_some_iff.mp hi).1
+      refine ⟨v, st', hv, by rw [s.args', hui]; simp [hlt], ?_⟩
+      have hassign := s.assign
+      rw [hui, getD_of_getElem? hst] at hassign
+      have eff := assignDest_effect hassign
+      rw [hk] at eff; dsimp only at eff
+      rw [eff.2, if_pos (hno u (by rw [s.uses']; simp) hui)]
+      exact hd
+    · exact ⟨v, st, hv, by rw [s.args', List.getElem?_set_ne hui]; exact hst, hd⟩
   · intro i di n hi hl
     obtain ⟨st, hst, hc, hle⟩ := a.count i di n hi hl
     by_cases hui : u.arg = i
@@ -181,35 +105,6 @@ theorem argInv_step {cfg : Cfg} {inits : List DVal} {h : HState} {u : Use} {h' :
       · rw [s.uses', valuesGiven_snoc, if_neg hui]; simpa using hc
 
 /-! ### rule "values" -/
-
-theorem assignVecLoop_valueOk (d : ArgDef) : ∀ (ts : List Word) (first : Bool) (st st' : ArgSt),
-    assignVecLoop d ts first st = .ok st' →
-    ∀ t ∈ ts, runChecks d.checks t = .ok () ∧ ∃ n, lexCastInt t = .ok n := by
-  intro ts
-  induction ts with
-  | nil => intro _ _ _ _ t ht; cases ht
-  | cons t ts ih =>
-    intro first st st' e t' ht'
-    simp only [assignVecLoop, bind_eq_ok] at e
-    obtain ⟨cnt, _, _, hr, v, hv, e⟩ := e
-    rcases List.mem_cons.mp ht' with rfl | hm
-    · exact ⟨hr, v, hv⟩
-    · exact ih _ _ _ e t' hm
-
-/-- a value that `assign` accepted converts to the destination type and passes all checks -/
-theorem assignDest_valueOk {d : ArgDef} {st st' : ArgSt} {v : Word} (e : assignDest d st v = .ok st') :
-    ScalarValueOk d v := by
-  unfold assignDest at e
-  unfold ScalarValueOk
-  split at e
-  · rename_i hk; rw [hk]; trivial
-  · rename_i hk; rw [hk]; simp only [bind_eq_ok] at e; obtain ⟨_, hr, n, hn, _⟩ := e; exact ⟨hr, n, hn⟩
-  · rename_i hk; rw [hk]; simp only [bind_eq_ok] at e; obtain ⟨_, hr, _⟩ := e; exact hr
-  · rename_i hk; rw [hk]; dsimp only at e ⊢
-    split at e
-    · rename_i hv; left; simpa using hv
-    · simp only [bind_eq_ok] at e; obtain ⟨_, _, _, hr, n, hn, _⟩ := e; right; exact ⟨hr, n, hn⟩
-  · rename_i hk; rw [hk]; exact assignVecLoop_valueOk d _ _ _ _ e
 
 theorem values_step {cfg : Cfg} {h : HState} {u : Use} {h' : HState} (a : ObeysValues cfg h.uses)
     (e : applyUse cfg h u = .ok h') : ObeysValues cfg h'.uses := by
@@ -249,18 +144,35 @@ theorem checkMandatoryCardinality_ok : ∀ (ds : List ArgDef) (ss : List ArgSt),
 theorem mandatory_sound {cfg : Cfg} {inits : List DVal} {h : HState} (a : ArgInv cfg inits h)
     (e : checkMandatoryCardinality cfg.args h.args = .ok ()) : ObeysMandatory cfg inits h.uses := by
   intro i d hi hm
-  by_cases hu : ∃ u ∈ h.uses, u.arg = i
+  by_cases hu : ∃ u ∈ h.uses, u.arg = i ∧ (d.kind = .vecInt → splitSep d.sep u.val ≠ [])
   · exact Or.inl hu
   · right
-    obtain ⟨v, hv, hst⟩ := a.fresh i d hi (fun u hu' hc => hu ⟨u, hu', hc⟩)
-    have := (checkMandatoryCardinality_ok _ _ e i d _ hi hst).1
-    rw [hm] at this
-    simp only [Bool.true_and, Bool.not_eq_false'] at this
-    unfold ArgSt.hasValue at this
-    cases hk : d.kind <;> rw [hk] at this <;> simp at this
-    cases v <;> simp at this
-    rename_i l
-    exact ⟨rfl, l, hv, by simpa using this⟩
+    have hnot : ∀ u ∈ h.uses, u.arg = i → d.kind = .vecInt ∧ splitSep d.sep u.val = [] := by
+      intro u hu' hui
+      by_cases hk : d.kind = .vecInt
+      · refine ⟨hk, ?_⟩
+        by_cases hs : splitSep d.sep u.val = []
+        · exact hs
+        · exact absurd ⟨u, hu', hui, fun _ => hs⟩ hu
+      · exact absurd ⟨u, hu', hui, fun c => absurd c hk⟩ hu
+    by_cases hk : d.kind = .vecInt
+    · obtain ⟨v, st, hv, hst, hd⟩ := a.freshVec i d hi hk (fun u hu' hui => (hnot u hu' hui).2)
+      have := (checkMandatoryCardinality_ok _ _ e i d _ hi hst).1
+      rw [hm] at this
+      simp only [Bool.true_and, Bool.not_eq_false'] at this
+      unfold ArgSt.hasValue at this
+      rw [hk, hd] at this
+      cases v <;> simp at this
+      rename_i l
+      exact ⟨hk, l, hv, by simpa using this⟩
+    · exfalso
+      obtain ⟨v, hv, hst⟩ := a.fresh i d hi (fun u hu' hc => hk (hnot u hu' hc).1)
+      have := (checkMandatoryCardinality_ok _ _ e i d _ hi hst).1
+      rw [hm] at this
+      simp only [Bool.true_and, Bool.not_eq_false'] at this
+      unfold ArgSt.hasValue at this
+      cases hkk : d.kind <;> rw [hkk] at this <;> simp at this
+      exact hk hkk
 
 theorem cardCheck_exact {n cnt : Int} (e : (Card.exact n).check cnt = .ok ()) : cnt ≤ 0 ∨ cnt = n := by
   simp only [Card.check] at e
